@@ -26,11 +26,31 @@ var (
 // blkCrowd is the number of workers of the crowd programs (Blocking.tla Crowd).
 const blkCrowd = 2000
 
-func blkName(form, holder, main string, workers int, depth string) string {
-	if depth == "own" {
-		return fmt.Sprintf("blk/%s/%s/%s/%d", form, holder, main, workers)
+func blkName(form, holder, main string, workers int, depth, lib string) string {
+	n := fmt.Sprintf("blk/%s/%s/%s/%d", form, holder, main, workers)
+	if depth != "own" || lib != "same" {
+		n += "/" + depth
 	}
-	return fmt.Sprintf("blk/%s/%s/%s/%d/%s", form, holder, main, workers, depth)
+	if lib != "same" {
+		n += "/lib-" + lib
+	}
+	return n
+}
+
+// blkLibrary turns a program of the family into a session: the declarations (package-level channels,
+// worker functions and methods) are evaluated first, through EvalWithContext(context.Background()),
+// and the statements of main are the evaluation that is cancelled.
+func blkLibrary(p program, form, holder, main string, workers int, depth string) program {
+	src := strings.TrimPrefix(p.Src, "package main\n\n")
+	i := strings.Index(src, "func main() {\n")
+	pre, body := src[:i], src[i+len("func main() {\n"):]
+	body = strings.TrimSuffix(body, "}\n")
+	lines := strings.Split(body, "\n")
+	for k, l := range lines {
+		lines[k] = strings.TrimPrefix(l, "\t")
+	}
+	return program{Name: blkName(form, holder, main, workers, depth, "earlier"), Pre: pre, PreCtx: true, Src: strings.Join(lines, "\n"),
+		Full: false, Class: "blocking-family", ChanInLit: false}
 }
 
 func sendLike(form string) bool { return form == "send" || form == "select1-send" }
@@ -127,7 +147,7 @@ func blkProgram(form, holder, main string, workers int, depth string) program {
 		b.WriteString("\tselect {\n\tcase v := <-park:\n\t\th.Tick(v)\n\t}\n")
 	}
 	b.WriteString("}\n")
-	return program{Name: blkName(form, holder, main, workers, depth), Src: b.String(), Full: true, Class: "blocking-family",
+	return program{Name: blkName(form, holder, main, workers, depth, "same"), Src: b.String(), Full: true, Class: "blocking-family",
 		ChanInLit: holder == "literal", Crowd: workers == blkCrowd}
 }
 
@@ -150,6 +170,13 @@ func init() {
 	for _, f := range blkForms {
 		programs = append(programs, blkProgram(f, "func", "blocked-recv", blkCrowd, "callee"))
 	}
+	for _, f := range blkForms {
+		for _, hd := range []string{"func", "method"} {
+			for _, d := range blkDepths {
+				programs = append(programs, blkLibrary(blkProgram(f, hd, "blocked-recv", 3, d), f, hd, "blocked-recv", 3, d))
+			}
+		}
+	}
 }
 
 // checkBlockingFamily has TLC enumerate Blocking.tla and compares the family with the table.
@@ -161,7 +188,7 @@ func checkBlockingFamily(c *fw.Ctx) error {
 	var got []string
 	for _, raw := range res.Beh {
 		var r struct {
-			Form, Holder, Main, Waits, Depth string
+			Form, Holder, Main, Waits, Depth, Lib string
 			Workers                          int
 		}
 		if err := json.Unmarshal(raw, &r); err != nil {
@@ -170,7 +197,7 @@ func checkBlockingFamily(c *fw.Ctx) error {
 		if (r.Waits == "receiver") != sendLike(r.Form) {
 			c.SpecError("Blocking.tla classifies %s as waiting for a %s, the renderer serves it otherwise", r.Form, r.Waits)
 		}
-		got = append(got, blkName(r.Form, r.Holder, r.Main, r.Workers, r.Depth))
+		got = append(got, blkName(r.Form, r.Holder, r.Main, r.Workers, r.Depth, r.Lib))
 	}
 	var want []string
 	for _, p := range programs[firstBlocking:] {
